@@ -1,4 +1,7 @@
+pub mod c05;
 pub mod c07;
 pub mod c08;
 pub mod c10;
+pub mod c16;
+pub mod c20;
 pub mod capfam;
